@@ -74,7 +74,7 @@ PROPERTIES = {
                    thorough={"cases": 60000, "shards": 16, "max_size": 100})],
     },
     "C03": {
-        "rule": "rapidcheck: 2-6 tiny cells of classes {epithelial, ecm, lumen, nucleus, static}, some with free slots made by a real "
+        "rule": "rapidcheck: 2-6 tiny cells of classes {epithelial, ecm, lumen, nucleus, static} whose persistent ids are, in 2/3 of the cases, larger than their positions in the list (increasing with gaps, as after removals and divisions), some with free slots made by a real "
                 "edge collapse, scale 1e-5..2.5, forces re-assigned before each of 1-5 steps, momenta assigned once, 0-8 mutual "
                 "couplings between distinct non-static cells (each node in at most one pair), dt / damping / density over 6 decades, "
                 "1..16 threads; built for contact models 0, 1, 2 and dynamic models 0, 1. Non-trivial = (a coupled pair, or contact "
@@ -141,7 +141,7 @@ PROPERTIES = {
                    env={"VERIF_TMP": "/verif/build/run"}, prefix=True)],
     },
     "C06": {
-        "rule": "rapidcheck: tissues of 2-7 cells (chain, cluster, cells inside an ECM shell, nucleus inside a cell, apart) of mixed classes, "
+        "rule": "rapidcheck: tissues of 2-7 cells (chain, cluster, cells inside an ECM shell, nucleus inside a cell, apart) of mixed classes, persistent ids larger than the list positions in 2/3 of the tissues, "
                 "icosphere level 1-2, um / unit / x12 scale, placed up to 3000 sizes from the origin and (1/2 of the cases) a further 1e4-1e7 edge lengths away; l_min, repulsion and adhesion "
                 "cut-offs log-uniform in [0.05, 3] edge lengths; node normals either in the iteration-0 state or computed; in half of the tissues every cell first undergoes real edge collapses / splits that leave unused node and face slots; for contact "
                 "models 0, 1, 2. Non-trivial = a node-face pair within the cut-off (independent kernel), tissue spanning >= 27 voxels, "
